@@ -17,6 +17,73 @@ use liwe::model::tree::Tree;
 use liwe::model::{Key, Position};
 use serde_json::{json, Value};
 
+use iwes::router::server::action::{
+    ActionContext, ActionProvider, Change, ListChangeType, ListToSections, ReferenceInlineQuote, ReferenceInlineSection, SectionExtract,
+    SectionToList, SubSectionsExtract,
+};
+use liwe::model::config::Model;
+
+/// the same delegation as `impl ActionContext for &Server`
+struct Cx<'a> {
+    g: &'a Graph,
+    opts: MarkdownOptions,
+    model: Model,
+}
+
+impl<'a> ActionContext for &Cx<'a> {
+    fn key_of(&self, node_id: u64) -> Key { self.g.key_of(node_id) }
+    fn collect(&self, key: &Key) -> Tree { self.g.collect(key) }
+    fn squash(&self, key: &Key, depth: u8) -> Tree { self.g.squash(key, depth) }
+    fn random_key(&self, parent: &str) -> Key { self.g.random_key(parent) }
+    fn markdown_options(&self) -> &MarkdownOptions { &self.opts }
+    fn llm_query(&self, _prompt: String, _model: &Model) -> String { String::new() }
+    fn default_model(&self) -> &Model { &self.model }
+    fn patch(&self) -> Graph { self.g.new_patch() }
+}
+
+fn blocks_of_markdown(key: &Key, md: &str) -> Value {
+    let mut g = Graph::new();
+    g.from_markdown(key.clone(), md, MarkdownReader::new());
+    let t = (&g).collect(key);
+    gblocks(&Projector::project(t.iter(), &key.parent()))
+}
+
+fn run_action(g: &Graph, provider: &str, target: u64) -> Value {
+    let cx = Cx { g, opts: MarkdownOptions::default(), model: Model::default() };
+    macro_rules! go {
+        ($p:expr) => {{
+            let p = $p;
+            match p.action(target, &cx) {
+                None => json!({"offered": false}),
+                Some(_) => match p.changes(target, &cx) {
+                    None => json!({"offered": true, "changes": null}),
+                    Some(chs) => {
+                        let mut out = vec![];
+                        for c in chs.iter() {
+                            match c {
+                                Change::Create(c) => out.push(json!({"op": "Create", "key": c.key.to_string()})),
+                                Change::Remove(c) => out.push(json!({"op": "Remove", "key": c.key.to_string()})),
+                                Change::Update(u) => out.push(json!({"op": "Update", "key": u.key.to_string(), "markdown": u.markdown, "blocks": blocks_of_markdown(&u.key, &u.markdown)})),
+                            }
+                        }
+                        json!({"offered": true, "changes": out})
+                    }
+                },
+            }
+        }};
+    }
+    match provider {
+        "SectionExtract" => go!(SectionExtract {}),
+        "SubSectionsExtract" => go!(SubSectionsExtract {}),
+        "ReferenceInlineSection" => go!(ReferenceInlineSection {}),
+        "ReferenceInlineQuote" => go!(ReferenceInlineQuote {}),
+        "SectionToList" => go!(SectionToList {}),
+        "ListToSections" => go!(ListToSections {}),
+        "ListChangeType" => go!(ListChangeType {}),
+        _ => json!({"error": "unknown provider"}),
+    }
+}
+
 fn irange() -> std::ops::Range<Position> {
     Position { line: 0, character: 0 }..Position { line: 0, character: 0 }
 }
@@ -198,6 +265,9 @@ fn arena_json(g: &Graph) -> Value {
         if let Some(c) = n.content() {
             d["content"] = json!(c);
         }
+        if let GraphNode::Reference(r) = n {
+            d["ref_text"] = json!(r.text());
+        }
         out.push(d);
     }
     Value::Array(out)
@@ -247,6 +317,7 @@ fn run_op(st: &mut St, op: &Value) -> Value {
             json!({})
         }
         "arena" => arena_json(&st.g),
+        "action" => run_action(&st.g, op["provider"].as_str().unwrap(), op["target"].as_u64().unwrap()),
         "keys" => {
             let mut m = serde_json::Map::new();
             for k in st.g.keys() {
